@@ -110,6 +110,14 @@ def disarm():
 
 # --------------------------------------------------------------------------- shard execution
 
+def _frame_depth():
+    f, n = sys._getframe(), 0
+    while f is not None:
+        n += 1
+        f = f.f_back
+    return n
+
+
 class Collector:
     MAX_SAMPLES = 4
     MAX_PER_BUCKET = 3
@@ -152,9 +160,14 @@ class Collector:
                 self.samples.append(case)
         try:
             arm(self.stream.timeout_s)
+            limit = sys.getrecursionlimit()
             try:
+                # Hypothesis raises the interpreter's recursion limit while a test runs; the code under test must see what a
+                # caller in a fresh interpreter sees (about 1000 frames from where it is called)
+                sys.setrecursionlimit(_frame_depth() + 970)
                 fails = self.mod.judge(case)
             finally:
+                sys.setrecursionlimit(max(limit, _frame_depth() + 50))
                 disarm()
         except CaseTimeout:
             self.timeouts += 1
